@@ -699,6 +699,10 @@ func (c *Client) receipts(ctx context.Context, url string, bm blockmap, start, l
 		if !ok {
 			return fmt.Errorf("block not found")
 		}
+		// The block may come from the cache and be shared with
+		// other callers: attach under the block lock (as logs does)
+		// and publish each log slice only once it is complete.
+		b.Lock()
 		b.Header.Hash.Write(resps[i].Result[0].BlockHash)
 		for j := range resps[i].Result {
 			tx := b.Tx(uint64(resps[i].Result[j].TxIdx))
@@ -709,10 +713,12 @@ func (c *Client) receipts(ctx context.Context, url string, bm blockmap, start, l
 			tx.Status.Write(byte(resps[i].Result[j].Status))
 			tx.GasUsed = resps[i].Result[j].GasUsed
 			tx.EffectiveGasPrice = resps[i].Result[j].EffectiveGasPrice
-			tx.Logs = make([]eth.Log, len(resps[i].Result[j].Logs))
+			logs := make([]eth.Log, len(resps[i].Result[j].Logs))
+			copy(logs, resps[i].Result[j].Logs)
+			tx.Logs = logs
 			tx.ContractAddress.Write(resps[i].Result[j].ContractAddress)
-			copy(tx.Logs, resps[i].Result[j].Logs)
 		}
+		b.Unlock()
 	}
 	return nil
 }
